@@ -46,6 +46,18 @@ CLAIMED = {
    "Enumerated receiver-drop points, failing write calls and failing open calls on 20 tiny sessions, plus seeded histories of every kind used elsewhere (clean, lossy, reordered, malformed, late join) x writer faults x crash point x cleanup cadence; an online typestate automaton in the monitoring writer plus length/MD5/prefix oracles.",
    "on corrupted histories only the announced length/MD5 are used",
    "deterministic simulation (writer-fault and crash-point injection, enumerated + seeded) + typestate automaton"),
+ "C15": ("exploration", "4.C15",
+   "Seeded allocate/drop/add/remove/publish/read histories for every TOI width and a set of boundary / oversized / simulator-supplied 'random' initial values, checked against a live-interval model and the wire (independent decoder) and the FDT; handle drops from other threads under shuttle's seeded random and PCT schedulers with every allocator lock a scheduling point; compile-time Send probe.",
+   "hooks H2 (TOI seed) and H4 (mutex yielding to shuttle) are faithful",
+   "deterministic simulation (seeded operation histories + shuttle controlled thread scheduling) + set reference model"),
+ "C16": ("fault_enumeration", "4.C16",
+   "Carousel sessions recorded for >= 5 cycles; a fresh real receiver is started at every packet offset of one full cycle (exhaustive over join offsets) for a 60-configuration grid plus seeded configurations and must deliver every object exactly within two further full cycles.",
+   "cycle definition as in the evidence rule",
+   "deterministic simulation with exhaustive late-join (receiver start) fault points"),
+ "C20": ("exploration", "4.C20",
+   "Differential simulation: the same scenario run at the same simulated instants with buffer sources and with Read+Seek streams under seeded short-read schedules (1 byte, fixed, random, BufReader-like) or real temp files; packet sequences must be byte-identical.",
+   "cenc null only (streams are not content-encoded by flute)",
+   "deterministic differential simulation with short-read fault injection at the Read seam"),
 }
 NOT_APPLICABLE = {
  "C06": "pure codec function of its input (encode/parse of one packet): no schedule, clock, fault or interleaving to simulate; deciding it is input enumeration, not simulation (DESIGN.md s5)",
